@@ -208,6 +208,11 @@ def nontrivial(op, result):
     return int(f.get("ok", 0)) > 0 and int(f.get("fail", 0)) + int(f.get("fatal", 0)) > 0
 
 
+def equivalent(op, impl, model):
+    # the harness bounds the nesting of rule calls (left recursion would overflow the C++ stack): same as out of fuel
+    return impl == "exc:depth" and model == "diverge"
+
+
 def all_strings(alpha, maxlen):
     out = [""]
     layer = [""]
